@@ -607,7 +607,15 @@ pub fn run(args: &Args) -> i32 {
         let c = cs[i].clone();
         let _g = crate::evidence::watchdog::enter(move || json!({"engine":"schedmc-c12","uri":c.uri(),"scheme":c.scheme,"host":c.host,"port":c.port,"peer":format!("{:?}", c.peer),"peer_spec":peer_json(&c.peer),"client_alpn":c.client_alpn,"via_client":c.via_client,"io":{"corrupt":c.io.corrupt.map(|(a,m)| vec![a as u64, m as u64]),"frag":c.io.frag,"bufsize":c.io.bufsize}}));
         let o = run_case(&cs[i], &fx);
-        let v = check(&cs[i], &o);
+        let mut v = check(&cs[i], &o);
+        if i % 8 == 5 {
+            let o2 = run_case(&cs[i], &fx);
+            crate::det::AUDITS.fetch_add(1, std::sync::atomic::Ordering::Relaxed);
+            let class = |o: &Seen| (o.client.as_ref().map(|r| r.is_ok()), o.raw.first().copied(), o.sni.clone(), o.peer_handshake.as_ref().map(|r| r.is_ok()), o.hung, o.panics.len());
+            if class(&o) != class(&o2) {
+                v.push(("machinery".into(), format!("the same case executed twice differs: {:?} vs {:?}", class(&o), class(&o2))));
+            }
+        }
         (o, v)
     });
     let _ = std::panic::take_hook();
@@ -633,6 +641,11 @@ pub fn run(args: &Args) -> i32 {
             samples.push(json!({"uri": c.uri(), "peer": format!("{:?}", c.peer), "client": format!("{:?}", o.client), "first_wire_byte": o.raw.first(), "sni": format!("{:?}", o.sni)}));
         }
         for (sub, msg) in viols {
+            if sub == "machinery" {
+                println!("MACHINERY-ERROR nondeterministic case: {msg}; uri {} peer {:?} io {:?}", c.uri(), c.peer, c.io);
+                let _ = run.finish();
+                return 2;
+            }
             let bare = c.host.trim_start_matches('[').trim_end_matches(']');
             let hk = if c.host.starts_with('[') { "ipv6-literal" } else if bare.parse::<std::net::Ipv4Addr>().is_ok() { "ipv4" } else { "name" };
             run.violation(format!("{sub} scheme={} host-kind={hk} peer={peer_class}", c.scheme), format!("{msg}; uri {} peer {:?}", c.uri(), c.peer), json!({"engine":"schedmc-c12","uri":c.uri(),"scheme":c.scheme,"host":c.host,"port":c.port,"peer":format!("{:?}", c.peer),"peer_spec":peer_json(&c.peer),"client_alpn":c.client_alpn,"via_client":c.via_client,"io":{"corrupt":c.io.corrupt.map(|(a,m)| vec![a as u64, m as u64]),"frag":c.io.frag,"bufsize":c.io.bufsize}}));
